@@ -19,6 +19,9 @@
 #include <sys/wait.h>
 #include <sys/stat.h>
 #include <sys/mman.h>
+#include <pthread.h>
+#include <semaphore.h>
+#include <time.h>
 
 iwrc iwal_test_checkpoint(struct iwkv *iwkv);
 
@@ -269,6 +272,17 @@ static int g_nops;
 // the history are executed at the g_inj_at-th write to the backup target - a deterministic stand-in for a
 // concurrent writer thread at that point of the copy
 static int g_bkp_active, g_bkp_writes, g_inj_at, g_inj_from, g_inj_n, g_inj_done, g_bkp_main_chunks;
+// 'B' instead of 'b': the injected operations run on a second thread which is released at the same point; the
+// backup thread waits for it (at most 300 ms: the writer may legitimately block until the copy is over)
+static int g_threaded, g_wdone_flag;
+static sem_t g_wstart, g_wdone;
+static void exec_op(int i);
+static void* writer_main(void *arg) {
+  sem_wait(&g_wstart);
+  for (int k = 0; k < g_inj_n; ++k) exec_op(g_inj_from + k);
+  sem_post(&g_wdone);
+  return 0;
+}
 
 static void exec_op(int i) {
   static uint8_t vbuf[1 << 22];
@@ -309,7 +323,7 @@ static void exec_op(int i) {
   } else if (op[0] == 'n') {
     struct iwdb *db = 0;
     rc = iwkv_db(kv, (uint32_t) (op[1] - '0'), 0, &db); dumpit = 1;
-  } else if (op[0] == 'b') {
+  } else if (op[0] == 'b' || op[0] == 'B') {
     // b<at>:<n>  online backup into <dir>/bkp, the next n operations run at the at-th write to the target
     char bp[700]; uint64_t ts = 0;
     snprintf(bp, sizeof(bp), "%s/bkp", g_dir);
@@ -319,9 +333,21 @@ static void exec_op(int i) {
     if (i + 1 + g_inj_n > g_nops) g_inj_n = g_nops - i - 1;
     g_inj_from = i + 1; g_inj_done = 0; g_bkp_writes = 0;
     g_bkp_main_chunks = (int) ((fsize(g_dbpath) + 16383) / 16384);
+    g_threaded = op[0] == 'B';
+    pthread_t wt;
+    if (g_threaded) {
+      sem_init(&g_wstart, 0, 0); sem_init(&g_wdone, 0, 0); g_wdone_flag = 0;
+      pthread_create(&wt, 0, writer_main, 0);
+    }
     g_bkp_active = 1;
     rc = iwkv_online_backup(kv, &ts, bp);
     g_bkp_active = 0;
+    if (g_threaded) {
+      if (!g_inj_done) { sem_post(&g_wstart); } // never triggered: run them now
+      if (!g_wdone_flag) sem_wait(&g_wdone);
+      pthread_join(wt, 0);
+      g_inj_done = g_inj_n;
+    }
     tr("K %d %d\n", g_inj_done, g_bkp_writes);
   }
   tr("E %d %s %lld %lld\n", i, rcs(rc), fsize(g_walpath), fsize(g_dbpath));
@@ -340,7 +366,15 @@ static void bkp_write_seen(void) {
   // only while the main file is being copied: later stages hold the exclusive lock
   if (g_bkp_writes == g_inj_at && !g_inj_done && g_inj_at <= g_bkp_main_chunks) {
     g_bkp_active = 0;
-    for (int k = 0; k < g_inj_n; ++k) exec_op(g_inj_from + k);
+    if (g_threaded) {
+      struct timespec tsw;
+      clock_gettime(CLOCK_REALTIME, &tsw);
+      tsw.tv_nsec += 300000000L; if (tsw.tv_nsec >= 1000000000L) { tsw.tv_sec++; tsw.tv_nsec -= 1000000000L; }
+      sem_post(&g_wstart);
+      if (!sem_timedwait(&g_wdone, &tsw)) g_wdone_flag = 1;
+    } else {
+      for (int k = 0; k < g_inj_n; ++k) exec_op(g_inj_from + k);
+    }
     g_inj_done = g_inj_n;
     g_bkp_active = 1;
   }
@@ -370,7 +404,7 @@ static int child_run(const char *dir, int crc, int fresh, long long killat, int 
   g_killat = killat; g_trace_fx = flags & 1; g_fx_n = 0; g_fx_on = 1;
   for (int i = 0; i < nops; ++i) {
     exec_op(i);
-    if (ops[i][0] == 'b') i += g_inj_done; // executed inside the backup
+    if (ops[i][0] == 'b' || ops[i][0] == 'B') i += g_inj_done; // executed inside the backup
   }
   g_fx_on = 0;
   tr("N %lld\n", g_fx_n);
